@@ -139,14 +139,15 @@ class Gate(io.RawIOBase):
                     total += k
                 self._fire(plan)  # raises for kill / enospc; returns after a pause
                 continue
-            os.write(self.fd, b[total:total + k])
-            self.n += k
-            total += k
             try:
-                SIM.event("write", self.rel, self.n)
+                SIM.crash_point("write", self.rel)
             except OSError:     # simulated disk-full at this crash point: it stays full
                 self.full = True
                 raise
+            os.write(self.fd, b[total:total + k])
+            self.n += k
+            total += k
+            SIM.event("write", self.rel, self.n)
             if self.owner_dead():   # killed by another route while parked
                 return len(b)
         return len(b)
@@ -344,6 +345,38 @@ def install():
                     ("rmdir", 1), ("truncate", 1), ("link", 2), ("symlink", 2)):
         setattr(os, name, _mutator(name, n))
     os.fsync = sim_fsync
+    _install_memory_events()
+
+
+def _install_memory_events():
+    """fsspec's memory:// files are BytesIO objects: their reads and seeks become events as well
+    (event budget = bounded liveness on every back-end; the request stream of memory:// is not
+    used by any I/O-pattern oracle)"""
+    try:
+        from fsspec.implementations.memory import MemoryFile
+    except Exception:  # noqa: BLE001
+        return
+    base_read, base_seek, base_readinto = MemoryFile.read, MemoryFile.seek, MemoryFile.readinto
+
+    def read(self, size=-1):
+        if not SIM.quiet:
+            SIM.event("read", "mem:" + str(getattr(self, "path", "?")), self.tell(),
+                      size if size is not None else -1, yield_=False)
+        return base_read(self, size)
+
+    def readinto(self, b):
+        if not SIM.quiet:
+            SIM.event("read", "mem:" + str(getattr(self, "path", "?")), self.tell(), len(b),
+                      yield_=False)
+        return base_readinto(self, b)
+
+    def seek(self, pos, whence=0):
+        out = base_seek(self, pos, whence)
+        if not SIM.quiet:
+            SIM.event("seek", "mem:" + str(getattr(self, "path", "?")), out, yield_=False)
+        return out
+
+    MemoryFile.read, MemoryFile.seek, MemoryFile.readinto = read, seek, readinto
 
 
 def real_open(*a, **k):
